@@ -347,10 +347,11 @@ def r2(ctx, sch):
 
 def _find(term, pred):
     """First sub-term satisfying pred (pre-order)."""
-    if pred(term):
+    is_term = isinstance(term, tuple) and term and isinstance(term[0], str)
+    if is_term and pred(term):
         return term
     if isinstance(term, tuple):
-        for x in term[1:]:
+        for x in (term[1:] if is_term else term):
             if isinstance(x, tuple):
                 r = _find(x, pred)
                 if r is not None:
@@ -371,22 +372,18 @@ def _r2_rowflow(ctx, f, pool, sites, sel, sch):
     idsel = [x for x in sites if x.stmts and x.stmts[0].verb == "SELECT" and x.stmts[0].tables() == ["features"]
              and len(x.stmts[0].cols) == 1 and x.stmts[0].cols[0][0][0] == "col" and x.stmts[0].cols[0][0][2].lower() == "id"
              and x.stmts[0].where is None]
-    id_cursors = set()
-    for x in idsel:
-        id_cursors |= fl.terms(x.call.func.value, x.func)
-    l2_cursors = set()
+    key_of = lambda x: ("row", (x.func.qual, x.call.lineno, x.call.col_offset))
+    id_rows = {key_of(x) for x in idsel}
     for s in sel:
-        l2_cursors |= fl.terms(s.call.func.value, s.func)
         pt = fl.terms(s.params, s.func) if s.params is not None else set()
-        # the whole row of the id cursor, or a 1-tuple of its first column
+        # the whole row of the id query, or a 1-tuple of its first column
         ok = bool(pt) and all(
-            (t[0] == "elem" and t[1] in id_cursors) or
-            (t[0] == "op" and t[1] in ("tuple", "list") and len(t) == 3 and t[2][0] == "pos" and t[2][2] == 0 and t[2][1][0] == "elem" and t[2][1][1] in id_cursors)
+            t in id_rows or (t[0] == "op" and t[1] in ("tuple", "list") and len(t) == 3 and t[2][0] == "pos" and t[2][2] == 0 and t[2][1] in id_rows)
             for t in pt)
         ctx.ob("R2", ok and len(idsel) >= 1, "the closure is computed for every stored feature id", node=s.call, func=s.func,
                sig="closure driven by SELECT id FROM features" if ok and idsel else "closure not driven by every feature id (bound to %s)" % ", ".join(sorted(show(t) for t in pt)))
-    ID0 = {("pos", ("elem", c_), 0) for c_ in id_cursors}
-    GC0 = {("pos", ("elem", c_), 0) for c_ in l2_cursors}
+    ID0 = {("pos", r, 0) for r in id_rows}
+    GC0 = {("pos", key_of(s), 0) for s in sel}
     # ---- the writer: one line per pair, <feature id> SEP <grandchild id>
     writes = [(g, c) for g in pool for c in calls_in(g.node) if call_attr(c) == "write" and c.args]
     ctx.floor("R2", len(writes), 1, "writes of closure pairs")
